@@ -1201,11 +1201,20 @@ def run(ctx):
     # heavy shards first (better packing); result order stays deterministic because pmap is ordered
     rot = ctx.seed % max(1, len(items))
     items = items[rot:] + items[:rot]
+    cpu = {}
     for name, acc in pmap(_work, items):
+        cpu[name] = cpu.get(name, 0) + acc.notes.pop("cpu_s", 0)
         ctx.merge_part(name, acc)
+    ctx.note("cpu_seconds_by_part", {k: round(v, 1) for k, v in cpu.items()})
     for k, v in notes.items():
         ctx.note(k, v)
-    ctx.exhaustive = (ctx.tier == "thorough") and not ctx.caps and not ctx.degraded and not only
+    complete = ["offsets (all 129601 second values)", "yearly rules (mode x day-of-week 0-7 x advance x add-day x month x 10 days-of-month x 10 times)",
+                "every zone field of the database files found"]
+    if ctx.tier == "thorough":
+        complete += ["milliseconds (all 172799999 values)", "counts 0..2^21+1023", "signed counts -2^20..2^20", "hour-count transitions 0..2^21+1023"]
+    ctx.note("sub_spaces_enumerated_completely", complete)
+    # counts / signed counts / transition pairs / strings / composite values are bounded alphabets, not whole domains
+    ctx.exhaustive = False
 
 
 def replay(rec):
